@@ -29,8 +29,6 @@ for fn, params, spec in [
     ('match_root', dict(self=CSSMATCH, el=NODE), 'sem_root(self, el)'),
     ('match_placeholder_shown', dict(self=CSSMATCH, el=NODE), 'sem_placeholder(self, el)'),
     ('match_empty', dict(self=CSSMATCH, el=NODE), 'sem_empty(self, el)'),
-    ('match_id', dict(self=CSSMATCH, el=NODE, ids=TSeq(STR)), 'sem_ids(self, el, ids)'),
-    ('match_classes', dict(self=CSSMATCH, el=NODE, classes=TSeq(STR)), 'sem_classes(self, el, classes)'),
     ('match_default', dict(self=CSSMATCH, el=NODE), 'sem_default(self, el)'),
     ('match_indeterminate', dict(self=CSSMATCH, el=NODE), 'sem_indeterminate(self, el)'),
     ('match_dir', dict(self=CSSMATCH, el=NODE, directionality=FLAGS), 'sem_dir(self, el, directionality)'),
@@ -173,3 +171,14 @@ contract(M + 'match_range', params=dict(self=CSSMATCH, el=NODE, condition=FLAGS)
          ensures=['result == sem_range(self, el, condition)'],
          kf_region='week53_region(el)', kf_id='C18-week53-lenient', opaque_specs=['html_value', 'week53_lenient'],
          properties=['C18', 'C08', 'C17'])
+
+contract(M + 'match_id', params=dict(self=CSSMATCH, el=NODE, ids=TSeq(STR)), returns=BOOL, requires=['el is not None'],
+         ensures=['result == sem_ids(self, el, ids)'],
+         loops={1: dict(var='i', invariant=['found', 'all_ids(el, ids, _i1) == all_ids(el, ids, 0)'])}, properties=['C01'])
+contract('soupsieve.css_match._DocumentNav.get_classes', params=dict(el=NODE), returns=TSeq(STR), requires=['el is not None'],
+         ensures=['result == class_list(el)'], properties=['C01'])
+contract(M + 'match_classes', params=dict(self=CSSMATCH, el=NODE, classes=TSeq(STR)), returns=BOOL, requires=['el is not None'],
+         ensures=['result == sem_classes(self, el, classes)'],
+         loops={1: dict(var='c', invariant=['found', 'current_classes == class_list(el)',
+                                            'all_classes(current_classes, classes, _i1) == all_classes(current_classes, classes, 0)'])},
+         properties=['C01'])
